@@ -48,6 +48,8 @@ def nontrivial(req, obs):
         return any(t[-1] != "l" for t in f[3:]) and any(t[-1] == "l" for t in f[3:])   # a dead and a live delivery
     if k == "ctxc":
         return len(f) == 5 and f[4].count(";") >= 1 and re.search(r"[cxht]", f[4]) is not None
+    if k == "volume":
+        return len(f) == 5 and int(f[3]) > 1024
     if k in ("expire", "router"):
         return True
     if k == "timeout":
@@ -65,6 +67,7 @@ PROP = {
         "Wm.Dedup.one_per_window", "Wm.Dedup.one_per_window_from", "Wm.Dedup.remembered_at_least_window",
         "Wm.Dedup.keys_independent",
         "Wm.Dedup.accepted_again_after_expiry", "Wm.Dedup.accepted_again_after_expiry_from",
+        "Wm.Dedup.sentinel_reaccepted_probe_forgotten", "Wm.Dedup.sentinel_reaccepted_probe_accepted",
         "Wm.Dedup.concurrent_exactly_one", "Wm.Dedup.concurrent_exactly_one_window",
         "Wm.Dedup.middleware_drop_is_success", "Wm.Dedup.middleware_first_reaches_handler",
         "Wm.Dedup.middleware_key_error", "Wm.Dedup.middleware_calls_iff_accepted",
@@ -101,6 +104,10 @@ PROP = {
             "(one message per Publish), sequentially and from 2..32 goroutines; rule: nothing is dropped as a success unless a message of "
             "that key reached the handler / wrapped publisher, nothing reaches twice, and a key with a live-context delivery has reached "
             "(a delivery rejected with an error must not consume the key); "
+            "volume: a fresh repository (windows 20..200 ms, via repository / middleware / decorator) takes 10..30 probe keys spread among "
+            "1500..60000 other keys and last a sentinel key; the sentinel is polled until it is accepted again (= a clean-up whose tick is past "
+            "the sentinel's, hence every probe's, expiry has run: theorem sentinel_reaccepted_probe_forgotten), then every probe is presented "
+            "again and must be accepted again, whatever the number of keys that expired together - no wall-clock bound is asserted; "
             "hash: systematic + seeded payload pairs around the 64-byte minimum and the configured limit; "
             "hist: stamped concurrent histories (1..32 goroutines, windows 1..50 ms, clean-up ticker running, via repository / "
             "middleware / decorator) checked against the timed Lean model by a per-key linearisation search whose witness is replayed on "
